@@ -72,7 +72,8 @@ ListShapes == {
   ListShape("a3", "fn",  TRUE,  {"*"}, {"k"}),
   ListShape("a4", "cls", TRUE,  {"q"}, {}),
   ListShape("a5", "fn",  TRUE,  {"p","z"}, {}),
-  [ListShape("a6", "fn", FALSE, {"*"}, {"q"}) EXCEPT !.deco = TRUE, !.api = "external"] }    \* decorated before it was registered
+  [ListShape("a6", "fn", FALSE, {"*"}, {"q"}) EXCEPT !.deco = TRUE, !.api = "external"],
+  [ListShape("a7", "fn", FALSE, {"*"}, {}) EXCEPT !.va = TRUE] }         \* STAR args but no STARSTAR kw: `args` is no parameter name    \* decorated before it was registered
 ListRegs == { {c} : c \in ListShapes }
 ListRegs2 == { {a, b} : a \in ListShapes, b \in { x \in ListShapes : x.sel[2] \in {"a1", "a2"} } }
 AllApis == {"tuple", "string", "text", "block"}
@@ -253,7 +254,7 @@ SerRegs0 == { {SerA, SerB, SerC, SerD, SerE, GinMacro}, {SerA, SerD, GinMacro}, 
 SerRegsM == { {SerA, SerD, GinMacro, SerT1, SerT2, SerM1, SerM2, SerM3}, {SerD, SerE, GinMacro, SerT1, SerM1, SerM3} }
 SerRegs == SerRegs0 \cup SerRegsM
 SerValsM == { L1, N1, R(<<"x","Gee">>, <<>>, "call"), <<"list", <<L1, N1>>>> }
-SerVals == { L1, L2, <<"lit","3">>, N1, <<"nonlit","n2">>, R(<<"x","Gee">>, <<>>, "call"), R(<<"x","Gee">>, <<"a","b">>, "bare"),
+SerVals == { L1, L2, <<"lit","3">>, <<"lit", "None">>, <<"lit", "empty">>, N1, <<"nonlit","n2">>, R(<<"x","Gee">>, <<>>, "call"), R(<<"x","Gee">>, <<"a","b">>, "bare"),
              Pct(<<"W">>), <<"list", <<L1, <<"dict", << <<L2, <<"tuple", <<R(<<"x","Gee">>, <<>>, "call")>>>>>> >>>>>>>>,
              <<"list", <<L1, N1>>>>, <<"tuple", <<>>>>, <<"dict", <<>>>> }
 SerFilter(sc, c, v) ==
@@ -294,7 +295,12 @@ HooksBound == Len(hooks) <= 2
 BV1 == {L1}
 NamesPQ == <<"p", "q">>
 BV12 == {L1, L2}
+\* with values that are false / None in Python (a bound value is a value, whatever its truth)
+LNone == <<"lit", "None">>
+LZero == <<"lit", "zero">>
+BV12F == {L1, L2, LNone, LZero}
 \* with a literal that the adapter may concretise as a mutable container (the consumer mutates what it receives)
 BV123 == {L1, L2, <<"lit", "3">>, <<"list", <<L1, L2>>>>}
 Names6 == <<"k", "p", "q", "self", "value", "z">>
+Names8 == <<"args", "k", "kw", "p", "q", "self", "value", "z">>
 =============================================================================
